@@ -16,12 +16,12 @@ static inline vr32 vr_fneg32(vr32 a){ return vr_hf(-vr_f(a)); }
 static inline uint8_t vr_cmp_(int p, double a, double b){
   int un = (a != a) || (b != b);
   switch (p) {
-    case VR_FALSE: return 0; case VR_TRUE: return 1;
-    case VR_OEQ: return !un && a == b; case VR_OGT: return !un && a > b; case VR_OGE: return !un && a >= b;
-    case VR_OLT: return !un && a < b; case VR_OLE: return !un && a <= b; case VR_ONE: return !un && a != b;
-    case VR_ORD: return !un; case VR_UNO: return un;
-    case VR_UEQ: return un || a == b; case VR_UGT: return un || a > b; case VR_UGE: return un || a >= b;
-    case VR_ULT: return un || a < b; case VR_ULE: return un || a <= b; case VR_UNE: return un || a != b;
+    case VRP_FALSE: return 0; case VRP_TRUE: return 1;
+    case VRP_OEQ: return !un && a == b; case VRP_OGT: return !un && a > b; case VRP_OGE: return !un && a >= b;
+    case VRP_OLT: return !un && a < b; case VRP_OLE: return !un && a <= b; case VRP_ONE: return !un && a != b;
+    case VRP_ORD: return !un; case VRP_UNO: return un;
+    case VRP_UEQ: return un || a == b; case VRP_UGT: return un || a > b; case VRP_UGE: return un || a >= b;
+    case VRP_ULT: return un || a < b; case VRP_ULE: return un || a <= b; case VRP_UNE: return un || a != b;
   }
   return 0;
 }
